@@ -82,13 +82,13 @@ Call(p) ==
               LET i == Id(p, o.k) IN
               IF i \in Ids /\ st[i] \in {"held", "released"}
               THEN \* release(): pre := status.Swap(2)
-                   /\ PRelCall(i)
                    /\ status' = [status EXCEPT ![i] = 2]
                    /\ IF status[i] = 1
-                      THEN /\ pc' = [pc EXCEPT ![p] = "relcs"]
+                      THEN /\ PRelCall(i)
+                           /\ pc' = [pc EXCEPT ![p] = "relcs"]
                            /\ relid' = [relid EXCEPT ![p] = i]
                            /\ UNCHANGED ip
-                      ELSE /\ Advance(p) /\ UNCHANGED <<pc, relid>>
+                      ELSE /\ PRelNoop(i) /\ Advance(p) /\ UNCHANGED <<pc, relid>>
                    /\ UNCHANGED <<nreaders, writing, writeWaiting, wch, ctxc>>
               ELSE \* the acquisition failed: there is no release function to call
                    /\ Advance(p)
@@ -184,7 +184,8 @@ RelCS(p) ==
     /\ pc' = [pc EXCEPT ![p] = "idle"]
     /\ Advance(p)
     /\ relid' = [relid EXCEPT ![p] = 0]
-    /\ UNCHANGED <<writeWaiting, status, ctxc, pvars>>
+    /\ PRelRet(relid[p])
+    /\ UNCHANGED <<writeWaiting, status, ctxc>>
 
 \* the single critical section of TryLock (rwmutex.go:121-135)
 TryCS(p) ==
